@@ -13,6 +13,10 @@ RULE = (
     "independent RFC 8032 implementation; random walks over the conversion graph bytes<->object<->hex (private and public); "
     "equivalence relation laws; key files; malformed encodings of every class. distinct = distinct (seed, sub-check) pairs."
 )
+RULE_ADDENDUM = (
+    'Additional: key rotation histories (direct write, other spelling of the path, relative name after chdir, same name), repeat-after-reject of malformed encodings, hex key files read by the command line (leading zeros, orphan entries by another key), conversions under threads.'
+)
+RULE = RULE + " " + RULE_ADDENDUM
 LIMITS = ["public keys that are not valid curve points are only used for conversion round trips, not for verification"]
 ASSUMPTIONS = ["vf/refs/ed25519.py implements RFC 8032 (vectors checked at start-up)"]
 
